@@ -72,8 +72,10 @@ Sub == Expr(Depth - 1)
 VARIABLES e, stage
 vars == <<e, stage>>
 \* a Boolean literal is accepted as a whole clause only (the checker refuses it under & and |)
+\* a long IN list (more keys than any batch size: 40 of the universe keys, every second one) is still a set of point reads
+LongIn == AIn(AKey, [i \in 1..40 |-> AStr(KeySeq[2 * i])])
 Init == \/ stage = 0 /\ e \in { ABin(op, l, l) : op \in Ops, l \in Sub }
-        \/ stage = 1 /\ e \in {ABool(FALSE), ABool(TRUE)}
+        \/ stage = 1 /\ e \in {ABool(FALSE), ABool(TRUE), LongIn, ABin("&", LongIn, Opq), ABin("&", LongIn, ABin("^=", AKey, AStr(<<97>>)))}
 Next == stage = 0 /\ stage' = 1 /\ \E r \in Sub : e' = ABin(e.op, e.a[1], r)
 
 SatIdx(ex, opq) == { i \in 1..NKeys : Sat(ex, Pair(KeySeq[i], IF opq THEN V1 ELSE V0), <<>>) = "t" }
